@@ -72,13 +72,16 @@ func recordAllFuncs(p *packages.Package, fs map[string]*FuncInfo) {
 }
 
 type inliner struct {
-	m     *Module
-	p     *packages.Package
-	info  *types.Info
-	decls map[*types.Func]*ast.FuncDecl
-	fresh map[*types.Func]bool // declared functions that are new with respect to the pinned tree
-	state map[*types.Func]int  // 0 untouched, 1 in progress, 2 done
-	count int
+	m         *Module
+	p         *packages.Package
+	info      *types.Info
+	decls     map[*types.Func]*ast.FuncDecl
+	fresh     map[*types.Func]bool // declared functions that are new with respect to the pinned tree
+	state     map[*types.Func]int  // 0 untouched, 1 in progress, 2 done
+	count     int
+	recvCache map[*ast.SelectorExpr]ast.Expr
+	tailOnly  map[*ast.CallExpr]bool // callee has several returns: expandable only as the operand of a return
+	asTail    bool
 }
 
 // normalisePackage rewrites the bodies of p's function declarations in place (once per loaded package).
@@ -103,7 +106,7 @@ func normalisePackage(m *Module, p *packages.Package) int {
 		known[n] = true
 	}
 	fs := pkgFuncs(m, p)
-	in := &inliner{m: m, p: p, info: p.TypesInfo, decls: map[*types.Func]*ast.FuncDecl{}, fresh: map[*types.Func]bool{}, state: map[*types.Func]int{}}
+	in := &inliner{m: m, p: p, info: p.TypesInfo, decls: map[*types.Func]*ast.FuncDecl{}, fresh: map[*types.Func]bool{}, state: map[*types.Func]int{}, tailOnly: map[*ast.CallExpr]bool{}}
 	anyFresh := false
 	for n, f := range fs {
 		if f.Obj == nil {
@@ -244,21 +247,29 @@ func (in *inliner) inlinable(call *ast.CallExpr, within *types.Func) (*ast.FuncD
 			return nil, nil
 		}
 		s := in.info.Selections[sel]
-		if s == nil || s.Kind() != types.MethodVal || len(s.Index()) != 1 {
+		if s == nil || s.Kind() != types.MethodVal {
+			return nil, nil
+		}
+		if len(s.Index()) != 1 && in.explicitRecv(sel, s) == nil {
 			return nil, nil
 		}
 	}
 	if len(call.Args) != sig.Params().Len() {
 		return nil, nil
 	}
-	if !in.simpleBody(fd, f) {
+	if !in.simpleBody(fd, f, false) {
+		if in.simpleBody(fd, f, true) {
+			in.tailOnly[call] = true
+			return fd, f
+		}
 		return nil, nil
 	}
+	delete(in.tailOnly, call)
 	return fd, f
 }
 
 // simpleBody: no defer/go/recover/labels/goto/self call, parameters never assigned, at most one return and that one last.
-func (in *inliner) simpleBody(fd *ast.FuncDecl, f *types.Func) bool {
+func (in *inliner) simpleBody(fd *ast.FuncDecl, f *types.Func, anyReturns bool) bool {
 	ok := true
 	nret := 0
 	sig := f.Type().(*types.Signature)
@@ -306,6 +317,9 @@ func (in *inliner) simpleBody(fd *ast.FuncDecl, f *types.Func) bool {
 			return false
 		}
 	}
+	if anyReturns {
+		return true
+	}
 	if nret > 1 {
 		return false
 	}
@@ -349,6 +363,10 @@ func (in *inliner) simpleArg(e ast.Expr) bool {
 // expansion of one call: statements to put in front, and the result expressions
 func (in *inliner) expand(call *ast.CallExpr, fd *ast.FuncDecl, f *types.Func, exprOnly bool) (pre []ast.Stmt, results []ast.Expr, ok bool) {
 	sig := f.Type().(*types.Signature)
+	tail := in.tailOnly[call]
+	if tail && !in.asTail {
+		return nil, nil, false
+	}
 	subst := map[types.Object]ast.Expr{}
 	// parameters used inside a closure of the callee are bound, not substituted
 	inClosure := map[types.Object]bool{}
@@ -385,6 +403,12 @@ func (in *inliner) expand(call *ast.CallExpr, fd *ast.FuncDecl, f *types.Func, e
 	if r := sig.Recv(); r != nil {
 		sel := unparen(call.Fun).(*ast.SelectorExpr)
 		recv := ast.Expr(sel.X)
+		if s := in.info.Selections[sel]; s != nil && len(s.Index()) > 1 {
+			recv = in.explicitRecv(sel, s)
+			if recv == nil {
+				return nil, nil, false
+			}
+		}
 		_, wantPtr := r.Type().(*types.Pointer)
 		if tv, has := in.info.Types[recv]; has {
 			_, isPtr := tv.Type.Underlying().(*types.Pointer)
@@ -409,6 +433,14 @@ func (in *inliner) expand(call *ast.CallExpr, fd *ast.FuncDecl, f *types.Func, e
 	}
 	cp := &copier{info: in.info, subst: subst}
 	body := fd.Body.List
+	if tail {
+		// the call is the operand of a return: the callee's returns are the caller's, the body is spliced as it is
+		for _, s := range body {
+			pre = append(pre, cp.node(s).(ast.Stmt))
+		}
+		in.count++
+		return pre, nil, true
+	}
 	var ret *ast.ReturnStmt
 	if n := len(body); n > 0 {
 		if r, isRet := body[n-1].(*ast.ReturnStmt); isRet {
@@ -529,6 +561,15 @@ func (in *inliner) stmt(s ast.Stmt, within *types.Func) ([]ast.Stmt, bool) {
 		if len(x.Results) == 1 {
 			if call := singleCall(x.Results[0]); call != nil {
 				if fd, f := in.inlinable(call, within); fd != nil {
+					if in.tailOnly[call] {
+						in.asTail = true
+						pre, _, ok := in.expand(call, fd, f, false)
+						in.asTail = false
+						if ok && len(pre) > 0 {
+							return pre, true
+						}
+						return []ast.Stmt{s}, false
+					}
 					if pre, res, ok := in.expand(call, fd, f, false); ok && len(res) > 0 {
 						cp := *x
 						cp.Results = res
@@ -940,7 +981,7 @@ func (in *inliner) guarded(as *ast.AssignStmt, ifs *ast.IfStmt, within *types.Fu
 		if !ok {
 			return nil, false
 		}
-		if s := in.info.Selections[sel]; s == nil || s.Kind() != types.MethodVal || len(s.Index()) != 1 {
+		if s := in.info.Selections[sel]; s == nil || s.Kind() != types.MethodVal || (len(s.Index()) != 1 && in.explicitRecv(sel, s) == nil) {
 			return nil, false
 		}
 	}
@@ -1062,27 +1103,64 @@ func (in *inliner) guarded(as *ast.AssignStmt, ifs *ast.IfStmt, within *types.Fu
 			return nil, false
 		}
 	}
-	lastRet, isRet := fd.Body.List[len(fd.Body.List)-1].(*ast.ReturnStmt)
-	if !isRet {
-		return nil, false
-	}
-	if s, _ := success(lastRet); !s {
-		return nil, false
-	}
-	// every other return is a failure
-	onlyFailures := true
-	ast.Inspect(fd.Body, func(n ast.Node) bool {
-		if _, isLit := n.(*ast.FuncLit); isLit {
-			return false
-		}
-		if r, isR := n.(*ast.ReturnStmt); isR && r != lastRet {
-			if s, _ := success(r); s {
-				onlyFailures = false
+	// an early success return `if c { …; return X, true }` followed by more statements is the same as putting those
+	// statements into the else branch; afterwards every success return must be in tail position (nothing of h runs after it),
+	// where it can be replaced by the assignment of its results
+	isSucc := func(r *ast.ReturnStmt) bool { s, _ := success(r); return s }
+	var elseify func(list []ast.Stmt) []ast.Stmt
+	elseify = func(list []ast.Stmt) []ast.Stmt {
+		for i, s := range list {
+			ifs, isIf := s.(*ast.IfStmt)
+			if !isIf || ifs.Else != nil || len(ifs.Body.List) == 0 || i == len(list)-1 {
+				continue
+			}
+			if r, isR := ifs.Body.List[len(ifs.Body.List)-1].(*ast.ReturnStmt); isR && isSucc(r) {
+				cpIf := *ifs
+				cpIf.Else = &ast.BlockStmt{Lbrace: list[i+1].Pos(), List: elseify(list[i+1:]), Rbrace: list[len(list)-1].End()}
+				return append(append([]ast.Stmt{}, list[:i]...), &cpIf)
 			}
 		}
-		return true
-	})
-	if !onlyFailures {
+		return list
+	}
+	bodyList := elseify(fd.Body.List)
+	tail := map[*ast.ReturnStmt]bool{}
+	var markTail func(list []ast.Stmt)
+	markTail = func(list []ast.Stmt) {
+		if len(list) == 0 {
+			return
+		}
+		switch x := list[len(list)-1].(type) {
+		case *ast.ReturnStmt:
+			tail[x] = true
+		case *ast.BlockStmt:
+			markTail(x.List)
+		case *ast.IfStmt:
+			markTail(x.Body.List)
+			switch e := x.Else.(type) {
+			case *ast.BlockStmt:
+				markTail(e.List)
+			case *ast.IfStmt:
+				markTail([]ast.Stmt{e})
+			}
+		}
+	}
+	markTail(bodyList)
+	okTail, nSucc := true, 0
+	for _, s := range bodyList {
+		ast.Inspect(s, func(n ast.Node) bool {
+			if _, isLit := n.(*ast.FuncLit); isLit {
+				return false
+			}
+			if r, isR := n.(*ast.ReturnStmt); isR && isSucc(r) {
+				nSucc++
+				if !tail[r] {
+					okTail = false
+				}
+			}
+			return true
+		})
+	}
+	if !okTail || nSucc == 0 {
 		return nil, false
 	}
 	// bind parameters
@@ -1101,7 +1179,12 @@ func (in *inliner) guarded(as *ast.AssignStmt, ifs *ast.IfStmt, within *types.Fu
 		pre = append(pre, &ast.AssignStmt{Lhs: []ast.Expr{id}, TokPos: call.Pos(), Tok: token.DEFINE, Rhs: []ast.Expr{arg}})
 	}
 	if r := sig.Recv(); r != nil {
-		bind(r, unparen(call.Fun).(*ast.SelectorExpr).X)
+		sel := unparen(call.Fun).(*ast.SelectorExpr)
+		recv := ast.Expr(sel.X)
+		if s := in.info.Selections[sel]; s != nil && len(s.Index()) > 1 {
+			recv = in.explicitRecv(sel, s)
+		}
+		bind(r, recv)
 	}
 	for i, a := range call.Args {
 		bind(sig.Params().At(i), a)
@@ -1118,7 +1201,7 @@ func (in *inliner) guarded(as *ast.AssignStmt, ifs *ast.IfStmt, within *types.Fu
 			lhs = append(lhs, failCopier.node(l).(ast.Expr))
 		}
 		asg := &ast.AssignStmt{Lhs: lhs, TokPos: r.Pos(), Tok: as.Tok, Rhs: res}
-		if r == lastRet {
+		if isSucc(r) {
 			return asg
 		}
 		blk := &ast.BlockStmt{Lbrace: r.Pos(), Rbrace: r.End()}
@@ -1129,9 +1212,45 @@ func (in *inliner) guarded(as *ast.AssignStmt, ifs *ast.IfStmt, within *types.Fu
 		return blk
 	}
 	out := pre
-	for _, s := range fd.Body.List {
+	for _, s := range bodyList {
 		out = append(out, cp.node(s).(ast.Stmt))
 	}
 	in.count++
 	return out, true
+}
+
+// explicitRecv: the receiver of a method promoted through embedded fields with those fields written out (x.m() → x.inner.m():
+// x.inner), type-checked in place so that the new selectors carry real selections. nil when that fails.
+func (in *inliner) explicitRecv(sel *ast.SelectorExpr, s *types.Selection) ast.Expr {
+	if cached, ok := in.recvCache[sel]; ok {
+		return cached
+	}
+	if in.recvCache == nil {
+		in.recvCache = map[*ast.SelectorExpr]ast.Expr{}
+	}
+	in.recvCache[sel] = nil
+	t := s.Recv()
+	cur := ast.Expr(sel.X)
+	idx := s.Index()
+	for i := 0; i < len(idx)-1; i++ {
+		for {
+			if p, ok := t.Underlying().(*types.Pointer); ok {
+				t = p.Elem()
+				continue
+			}
+			break
+		}
+		st, ok := t.Underlying().(*types.Struct)
+		if !ok {
+			return nil
+		}
+		f := st.Field(idx[i])
+		cur = &ast.SelectorExpr{X: cur, Sel: &ast.Ident{NamePos: sel.Sel.Pos(), Name: f.Name()}}
+		t = f.Type()
+	}
+	if err := types.CheckExpr(in.p.Fset, in.p.Types, sel.Pos(), cur, in.info); err != nil {
+		return nil
+	}
+	in.recvCache[sel] = cur
+	return cur
 }
